@@ -572,6 +572,12 @@ func Attribute(run *core.Run, misses []Miss, opts ChainOpts, accept func(o *Batc
 				run.IsKnown(k[:i] + ">*" + sigSuffix)
 				continue
 			}
+			// suffix entries "*>b": every minimal two-link chain that ends with link b (one root cause tied to what b does
+			// with data that arrives through an earlier link)
+			if parts := strings.Split(k, ">"); len(parts) == 2 && known["*>"+parts[1]+sigSuffix] {
+				run.IsKnown("*>" + parts[1] + sigSuffix)
+				continue
+			}
 			// Field-sensitive mode loses flows of multi-link chains on the pinned tree in a way that is not
 			// attributable link pair by link pair (see DESIGN, known finding "*multi-link@field-sensitive"):
 			// a multi-link minimal chain that fails ONLY under field-sensitive configurations is attributed to it.
